@@ -68,3 +68,468 @@ VARIANTS = [
       find='\t\t\tparsedSubject, err := pkix.ParseDistinguishedName(identityValue)\n\t\t\tif err != nil {\n\t\t\t\treturn err\n\t\t\t}',
       replace='\t\t\tparsedSubject, err := pkix.ParseDistinguishedName(identityValue)\n\t\t\tif err != nil {\n\t\t\t\treturn fmt.Errorf("identity %q: %w", identity, err)\n\t\t\t}'),
 ]
+
+# ---- shapes accepted since the generalisation of the rule set (helpers / methods in the verifier's call tree, the identity
+# ---- split said with Contains + CutPrefix, pre-sized list, alias on a local copy, mandatory list as an array literal):
+# ---- each shape once as a benign rewrite of the base tree, and with the property broken inside the new shape.
+
+def _sub(text, old, new):
+    assert text.count(old) == 1, (old, text.count(old))
+    return text.replace(old, new)
+
+# base text of the identity verifier and of the attribute part of the DN parser (the `find` of the whole-function variants)
+_VFN = '''func verifyX509TrustedIdentities(policyName string, trustedIdentities []string, certs []*x509.Certificate) error {
+	if slices.Contains(trustedIdentities, trustpolicyInternal.Wildcard) {
+		return nil
+	}
+
+	var trustedX509Identities []map[string]string
+	for _, identity := range trustedIdentities {
+		identityPrefix, identityValue, found := strings.Cut(identity, ":")
+		if !found {
+			return fmt.Errorf("trust policy statement %q has trusted identity %q missing separator", policyName, identity)
+		}
+
+		// notation natively supports x509.subject identities only
+		if identityPrefix == trustpolicyInternal.X509Subject {
+			// identityValue cannot be empty
+			if identityValue == "" {
+				return fmt.Errorf("trust policy statement %q has trusted identity %q without an identity value", policyName, identity)
+			}
+			parsedSubject, err := pkix.ParseDistinguishedName(identityValue)
+			if err != nil {
+				return err
+			}
+			trustedX509Identities = append(trustedX509Identities, parsedSubject)
+		}
+	}
+
+	if len(trustedX509Identities) == 0 {
+		return fmt.Errorf("no x509 trusted identities are configured in the trust policy %q", policyName)
+	}
+
+	leafCert := certs[0] // trusted identities only supported on the leaf cert
+
+	// parse the certificate subject following rfc 4514 DN syntax
+	leafCertDN, err := pkix.ParseDistinguishedName(leafCert.Subject.String())
+	if err != nil {
+		return fmt.Errorf("error while parsing the certificate subject from the digital signature. error : %q", err)
+	}
+	for _, trustedX509Identity := range trustedX509Identities {
+		if pkix.IsSubsetDN(trustedX509Identity, leafCertDN) {
+			return nil
+		}
+	}
+
+	return fmt.Errorf("signing certificate from the digital signature does not match the X.509 trusted identities %q defined in the trust policy %q", trustedX509Identities, policyName)
+}
+
+'''
+
+_PARSER = '''	attrKeyValue := make(map[string]string)
+	dn, err := ldapv3.ParseDN(name)
+	if err != nil {
+		return nil, fmt.Errorf("parsing distinguished name (DN) %q failed with err: %v. A valid DN must contain 'C', 'ST' or 'S', and 'O' RDN attributes at a minimum, and follow RFC 4514 standard", name, err)
+	}
+
+	for _, rdn := range dn.RDNs {
+		// multi-valued RDNs are not supported (TODO: add spec reference here)
+		if len(rdn.Attributes) > 1 {
+			return nil, fmt.Errorf("distinguished name (DN) %q has multi-valued RDN attributes, remove multi-valued RDN attributes as they are not supported", name)
+		}
+		for _, attribute := range rdn.Attributes {
+			// stateOrProvince name 'S' is an alias for 'ST'
+			if attribute.Type == "S" {
+				attribute.Type = "ST"
+			}
+			if attrKeyValue[attribute.Type] == "" {
+				attrKeyValue[attribute.Type] = attribute.Value
+			} else {
+				return nil, fmt.Errorf("distinguished name (DN) %q has duplicate RDN attribute for %q, DN can only have unique RDN attributes", name, attribute.Type)
+			}
+		}
+	}
+
+	// Verify mandatory fields are present
+	mandatoryFields := []string{"C", "ST", "O"}
+	for _, field := range mandatoryFields {
+		if attrKeyValue[field] == "" {
+			return nil, fmt.Errorf("distinguished name (DN) %q has no mandatory RDN attribute for %q, it must contain 'C', 'ST' or 'S', and 'O' RDN attributes at a minimum", name, field)
+		}
+	}
+
+'''
+
+# shape: list building and matching extracted into two helpers
+_HELPERS = '''func verifyX509TrustedIdentities(policyName string, trustedIdentities []string, certs []*x509.Certificate) error {
+	if slices.Contains(trustedIdentities, trustpolicyInternal.Wildcard) {
+		return nil
+	}
+
+	trustedX509Identities, err := parseX509TrustedIdentities(policyName, trustedIdentities)
+	if err != nil {
+		return err
+	}
+	if len(trustedX509Identities) == 0 {
+		return fmt.Errorf("no x509 trusted identities are configured in the trust policy %q", policyName)
+	}
+
+	leafCert := certs[0] // trusted identities only supported on the leaf cert
+
+	// parse the certificate subject following rfc 4514 DN syntax
+	leafCertDN, err := pkix.ParseDistinguishedName(leafCert.Subject.String())
+	if err != nil {
+		return fmt.Errorf("error while parsing the certificate subject from the digital signature. error : %q", err)
+	}
+	if matchesAnyX509Identity(trustedX509Identities, leafCertDN) {
+		return nil
+	}
+
+	return fmt.Errorf("signing certificate from the digital signature does not match the X.509 trusted identities %q defined in the trust policy %q", trustedX509Identities, policyName)
+}
+
+// parseX509TrustedIdentities returns the parsed distinguished names of all
+// x509.subject identities in trustedIdentities, in their original order.
+// Identities with any other prefix are skipped.
+func parseX509TrustedIdentities(policyName string, trustedIdentities []string) ([]map[string]string, error) {
+	var trustedX509Identities []map[string]string
+	for _, identity := range trustedIdentities {
+		identityPrefix, identityValue, found := strings.Cut(identity, ":")
+		if !found {
+			return nil, fmt.Errorf("trust policy statement %q has trusted identity %q missing separator", policyName, identity)
+		}
+
+		// notation natively supports x509.subject identities only
+		if identityPrefix == trustpolicyInternal.X509Subject {
+			// identityValue cannot be empty
+			if identityValue == "" {
+				return nil, fmt.Errorf("trust policy statement %q has trusted identity %q without an identity value", policyName, identity)
+			}
+			parsedSubject, err := pkix.ParseDistinguishedName(identityValue)
+			if err != nil {
+				return nil, err
+			}
+			trustedX509Identities = append(trustedX509Identities, parsedSubject)
+		}
+	}
+	return trustedX509Identities, nil
+}
+
+// matchesAnyX509Identity reports whether at least one of the trusted
+// identities is a subset of the given certificate subject.
+func matchesAnyX509Identity(trustedX509Identities []map[string]string, certDN map[string]string) bool {
+	for _, trustedX509Identity := range trustedX509Identities {
+		if pkix.IsSubsetDN(trustedX509Identity, certDN) {
+			return true
+		}
+	}
+	return false
+}
+
+'''
+
+# shape: loop bodies as methods of an unexported list type (pointer receiver appends), list held in a local variable
+_METHODS = '''// x509SubjectSet holds the parsed x509.subject trusted identities of a trust
+// policy statement, in the order in which the policy lists them.
+type x509SubjectSet []map[string]string
+
+// add parses a trusted identity of the form <prefix>:<value> and appends it
+// to the set if it is an x509.subject identity. Identities with any other
+// prefix are ignored.
+func (s *x509SubjectSet) add(policyName, identity string) error {
+	prefix, value, found := strings.Cut(identity, ":")
+	if !found {
+		return fmt.Errorf("trust policy statement %q has trusted identity %q missing separator", policyName, identity)
+	}
+
+	// notation natively supports x509.subject identities only
+	if prefix == trustpolicyInternal.X509Subject {
+		// value cannot be empty
+		if value == "" {
+			return fmt.Errorf("trust policy statement %q has trusted identity %q without an identity value", policyName, identity)
+		}
+		dn, err := pkix.ParseDistinguishedName(value)
+		if err != nil {
+			return err
+		}
+		*s = append(*s, dn)
+	}
+	return nil
+}
+
+// trusts reports whether at least one identity of the set is a subset of the
+// given certificate subject.
+func (s x509SubjectSet) trusts(subjectDN map[string]string) bool {
+	for _, dn := range s {
+		if pkix.IsSubsetDN(dn, subjectDN) {
+			return true
+		}
+	}
+	return false
+}
+
+// verifyX509TrustedIdentities verifies that the subject of the signing
+// certificate matches at least one of the x509.subject trusted identities of
+// the trust policy statement.
+func verifyX509TrustedIdentities(policyName string, trustedIdentities []string, certs []*x509.Certificate) error {
+	if slices.Contains(trustedIdentities, trustpolicyInternal.Wildcard) {
+		return nil
+	}
+
+	var pinned x509SubjectSet
+	for _, identity := range trustedIdentities {
+		if err := pinned.add(policyName, identity); err != nil {
+			return err
+		}
+	}
+	if len(pinned) == 0 {
+		return fmt.Errorf("no x509 trusted identities are configured in the trust policy %q", policyName)
+	}
+
+	signingCert := certs[0] // trusted identities only supported on the leaf cert
+
+	// parse the certificate subject following rfc 4514 DN syntax
+	signingCertDN, err := pkix.ParseDistinguishedName(signingCert.Subject.String())
+	if err != nil {
+		return fmt.Errorf("error while parsing the certificate subject from the digital signature. error : %q", err)
+	}
+	if pinned.trusts(signingCertDN) {
+		return nil
+	}
+
+	return fmt.Errorf("signing certificate from the digital signature does not match the X.509 trusted identities %q defined in the trust policy %q", []map[string]string(pinned), policyName)
+}
+
+'''
+
+# shape: strings.Contains + strings.CutPrefix instead of strings.Cut + comparison, list pre-sized with make(T, 0, n)
+_CUTPREFIX = '''// x509SubjectIdentityPrefix is the identity prefix of an x509.subject trusted
+// identity including the separator.
+const x509SubjectIdentityPrefix = trustpolicyInternal.X509Subject + ":"
+
+func verifyX509TrustedIdentities(policyName string, trustedIdentities []string, certs []*x509.Certificate) error {
+	if slices.Contains(trustedIdentities, trustpolicyInternal.Wildcard) {
+		return nil
+	}
+
+	trustedX509Identities := make([]map[string]string, 0, len(trustedIdentities))
+	for _, identity := range trustedIdentities {
+		if !strings.Contains(identity, ":") {
+			return fmt.Errorf("trust policy statement %q has trusted identity %q missing separator", policyName, identity)
+		}
+
+		// notation natively supports x509.subject identities only
+		if identityValue, ok := strings.CutPrefix(identity, x509SubjectIdentityPrefix); ok {
+			// identityValue cannot be empty
+			if identityValue == "" {
+				return fmt.Errorf("trust policy statement %q has trusted identity %q without an identity value", policyName, identity)
+			}
+			parsedSubject, err := pkix.ParseDistinguishedName(identityValue)
+			if err != nil {
+				return err
+			}
+			trustedX509Identities = append(trustedX509Identities, parsedSubject)
+		}
+	}
+
+	if len(trustedX509Identities) == 0 {
+		return fmt.Errorf("no x509 trusted identities are configured in the trust policy %q", policyName)
+	}
+
+	leafCert := certs[0] // trusted identities only supported on the leaf cert
+
+	// parse the certificate subject following rfc 4514 DN syntax
+	leafCertDN, err := pkix.ParseDistinguishedName(leafCert.Subject.String())
+	if err != nil {
+		return fmt.Errorf("error while parsing the certificate subject from the digital signature. error : %q", err)
+	}
+	for _, trustedX509Identity := range trustedX509Identities {
+		if pkix.IsSubsetDN(trustedX509Identity, leafCertDN) {
+			return nil
+		}
+	}
+
+	return fmt.Errorf("signing certificate from the digital signature does not match the X.509 trusted identities %q defined in the trust policy %q", trustedX509Identities, policyName)
+}
+
+'''
+
+# shape: `continue` guard, index loop with a matched flag
+_FLAG = '''func verifyX509TrustedIdentities(policyName string, trustedIdentities []string, certs []*x509.Certificate) error {
+	if slices.Contains(trustedIdentities, trustpolicyInternal.Wildcard) {
+		return nil
+	}
+
+	var trustedX509Identities []map[string]string
+	for _, identity := range trustedIdentities {
+		identityPrefix, identityValue, found := strings.Cut(identity, ":")
+		if !found {
+			return fmt.Errorf("trust policy statement %q has trusted identity %q missing separator", policyName, identity)
+		}
+
+		// notation natively supports x509.subject identities only
+		if identityPrefix != trustpolicyInternal.X509Subject {
+			continue
+		}
+		// identityValue cannot be empty
+		if identityValue == "" {
+			return fmt.Errorf("trust policy statement %q has trusted identity %q without an identity value", policyName, identity)
+		}
+		parsedSubject, err := pkix.ParseDistinguishedName(identityValue)
+		if err != nil {
+			return err
+		}
+		trustedX509Identities = append(trustedX509Identities, parsedSubject)
+	}
+
+	if len(trustedX509Identities) == 0 {
+		return fmt.Errorf("no x509 trusted identities are configured in the trust policy %q", policyName)
+	}
+
+	leafCert := certs[0] // trusted identities only supported on the leaf cert
+
+	// parse the certificate subject following rfc 4514 DN syntax
+	leafCertDN, err := pkix.ParseDistinguishedName(leafCert.Subject.String())
+	if err != nil {
+		return fmt.Errorf("error while parsing the certificate subject from the digital signature. error : %q", err)
+	}
+
+	matched := false
+	for i := 0; i < len(trustedX509Identities) && !matched; i++ {
+		matched = pkix.IsSubsetDN(trustedX509Identities[i], leafCertDN)
+	}
+	if !matched {
+		return fmt.Errorf("signing certificate from the digital signature does not match the X.509 trusted identities %q defined in the trust policy %q", trustedX509Identities, policyName)
+	}
+	return nil
+}
+
+'''
+
+# shape (parser): map made after ParseDN, alias on a local copy of the type, duplicate test as a guard clause, mandatory list as an array literal
+_PARSER2 = '''	dn, err := ldapv3.ParseDN(name)
+	if err != nil {
+		return nil, fmt.Errorf("parsing distinguished name (DN) %q failed with err: %v. A valid DN must contain 'C', 'ST' or 'S', and 'O' RDN attributes at a minimum, and follow RFC 4514 standard", name, err)
+	}
+
+	attrKeyValue := make(map[string]string)
+	for _, rdn := range dn.RDNs {
+		// multi-valued RDNs are not supported (TODO: add spec reference here)
+		if len(rdn.Attributes) > 1 {
+			return nil, fmt.Errorf("distinguished name (DN) %q has multi-valued RDN attributes, remove multi-valued RDN attributes as they are not supported", name)
+		}
+		for _, attribute := range rdn.Attributes {
+			attrType := attribute.Type
+			// stateOrProvince name 'S' is an alias for 'ST'
+			if attrType == "S" {
+				attrType = "ST"
+			}
+			if attrKeyValue[attrType] != "" {
+				return nil, fmt.Errorf("distinguished name (DN) %q has duplicate RDN attribute for %q, DN can only have unique RDN attributes", name, attrType)
+			}
+			attrKeyValue[attrType] = attribute.Value
+		}
+	}
+
+	// Verify mandatory fields are present
+	for _, field := range [...]string{"C", "ST", "O"} {
+		if attrKeyValue[field] == "" {
+			return nil, fmt.Errorf("distinguished name (DN) %q has no mandatory RDN attribute for %q, it must contain 'C', 'ST' or 'S', and 'O' RDN attributes at a minimum", name, field)
+		}
+	}
+
+'''
+
+_LEAFHELPER = _sub(_sub(_VFN,
+    '\tleafCert := certs[0] // trusted identities only supported on the leaf cert\n\n', ''),
+    'leafCertDN, err := pkix.ParseDistinguishedName(leafCert.Subject.String())', 'leafCertDN, err := signingSubjectDN(certs)') + '''
+// signingSubjectDN parses the subject of the signing certificate of a chain.
+func signingSubjectDN(certs []*x509.Certificate) (map[string]string, error) {
+	return pkix.ParseDistinguishedName(certs[0].Subject.String())
+}
+
+'''
+
+VARIANTS += [
+ # -- helpers in the verifier's call tree
+ dict(name='benign-helpers-extracted', file=V, expect='silent', find=_VFN, replace=_HELPERS),
+ dict(name='helpers-args-swapped', file=V, expect='flagged(verifier/second-arg-leaf-subject)', find=_VFN,
+      replace=_sub(_HELPERS, 'pkix.IsSubsetDN(trustedX509Identity, certDN)', 'pkix.IsSubsetDN(certDN, trustedX509Identity)')),
+ dict(name='helpers-unparsable-skipped', file=V, expect='flagged(verifier/identity-parse-error)', find=_VFN,
+      replace=_sub(_HELPERS, '\t\t\tif err != nil {\n\t\t\t\treturn nil, err\n\t\t\t}', '\t\t\tif err != nil {\n\t\t\t\tcontinue\n\t\t\t}')),
+ dict(name='helpers-issuer-subject', file=V, expect='flagged(verifier/second-arg-leaf-subject)', find=_VFN,
+      replace=_sub(_HELPERS, 'pkix.ParseDistinguishedName(leafCert.Subject.String())', 'pkix.ParseDistinguishedName(leafCert.Issuer.String())')),
+ dict(name='helpers-match-on-empty-list', file=V, expect='flagged(verifier/success-exits)', find=_VFN,
+      replace=_sub(_HELPERS, '\tfor _, trustedX509Identity := range trustedX509Identities {\n\t\tif pkix.IsSubsetDN(trustedX509Identity, certDN) {',
+                   '\tif len(certDN) == 0 {\n\t\treturn true\n\t}\n\tfor _, trustedX509Identity := range trustedX509Identities {\n\t\tif pkix.IsSubsetDN(trustedX509Identity, certDN) {')),
+ dict(name='helpers-separator-unchecked', file=V, expect='flagged(verifier/missing-separator)', find=_VFN,
+      replace=_sub(_HELPERS, '\t\tif !found {\n\t\t\treturn nil, fmt.Errorf("trust policy statement %q has trusted identity %q missing separator", policyName, identity)\n\t\t}',
+                   '\t\tif !found {\n\t\t\tcontinue\n\t\t}')),
+ dict(name='helpers-second-caller-passes-intermediate', file=V, expect='flagged(verifier/)', find=_VFN,
+      replace=_sub(_HELPERS, '\tif matchesAnyX509Identity(trustedX509Identities, leafCertDN) {\n\t\treturn nil\n\t}\n',
+                   '\tif matchesAnyX509Identity(trustedX509Identities, leafCertDN) {\n\t\treturn nil\n\t}\n\tif len(certs) > 1 {\n\t\tif dn, err := pkix.ParseDistinguishedName(certs[1].Subject.String()); err == nil && matchesAnyX509Identity(trustedX509Identities, dn) {\n\t\t\treturn nil\n\t\t}\n\t}\n')),
+ # -- the chain handed to a helper
+ dict(name='benign-leaf-subject-helper', file=V, expect='silent', find=_VFN, replace=_LEAFHELPER),
+ dict(name='leaf-helper-reads-last-cert', file=V, expect='flagged(verifier/leaf-only)', find=_VFN,
+      replace=_sub(_LEAFHELPER, 'certs[0].Subject.String()', 'certs[len(certs)-1].Subject.String()')),
+ dict(name='leaf-helper-reads-issuer', file=V, expect='flagged(verifier/second-arg-leaf-subject)', find=_VFN,
+      replace=_sub(_LEAFHELPER, 'certs[0].Subject.String()', 'certs[0].Issuer.String()')),
+ # -- methods of a list type, list variable filled in through a pointer
+ dict(name='benign-methods-pointer-receiver', file=V, expect='silent', find=_VFN, replace=_METHODS),
+ dict(name='methods-any-kind-appended', file=V, expect='flagged(verifier/first-arg-identity)', find=_VFN,
+      replace=_sub(_METHODS, '\tif prefix == trustpolicyInternal.X509Subject {', '\tif prefix != "" {')),
+ dict(name='methods-foreign-element', file=V, expect='flagged(verifier/first-arg-identity)', find=_VFN,
+      replace=_sub(_METHODS, '\tif pinned.trusts(signingCertDN) {', '\tif issuerDN, err := pkix.ParseDistinguishedName(signingCert.Issuer.String()); err == nil {\n\t\tpinned = append(pinned, issuerDN)\n\t}\n\tif pinned.trusts(signingCertDN) {')),
+ dict(name='methods-nil-elements', file=V, expect='flagged(verifier/first-arg-identity)', find=_VFN,
+      replace=_sub(_METHODS, '\tvar pinned x509SubjectSet\n', '\tpinned := make(x509SubjectSet, len(trustedIdentities))\n')),
+ dict(name='methods-parse-error-appended', file=V, expect='flagged(verifier/identity-parse-error)', find=_VFN,
+      replace=_sub(_METHODS, '\t\tdn, err := pkix.ParseDistinguishedName(value)\n\t\tif err != nil {\n\t\t\treturn err\n\t\t}\n', '\t\tdn, _ := pkix.ParseDistinguishedName(value)\n')),
+ dict(name='methods-empty-value-ignored', file=V, expect='flagged(verifier/empty-value)', find=_VFN,
+      replace=_sub(_METHODS, '\t\tif value == "" {\n\t\t\treturn fmt.Errorf("trust policy statement %q has trusted identity %q without an identity value", policyName, identity)\n\t\t}', '\t\tif value == "" {\n\t\t\treturn nil\n\t\t}')),
+ dict(name='methods-add-error-ignored', file=V, expect='flagged(verifier/)', find=_VFN,
+      replace=_sub(_METHODS, '\t\tif err := pinned.add(policyName, identity); err != nil {\n\t\t\treturn err\n\t\t}', '\t\tpinned.add(policyName, identity)')),
+ dict(name='methods-trusts-reversed', file=V, expect='flagged(verifier/)', find=_VFN,
+      replace=_sub(_METHODS, 'pkix.IsSubsetDN(dn, subjectDN)', 'pkix.IsSubsetDN(subjectDN, dn)')),
+ # -- Contains + CutPrefix, pre-sized list
+ dict(name='benign-contains-cutprefix-presized', file=V, expect='silent', find=_VFN, replace=_CUTPREFIX),
+ dict(name='cutprefix-kind-not-tested', file=V, expect='flagged(verifier/first-arg-identity)', find=_VFN,
+      replace=_sub(_CUTPREFIX, '\t\tif identityValue, ok := strings.CutPrefix(identity, x509SubjectIdentityPrefix); ok {', '\t\tif identityValue, ok := strings.CutPrefix(identity, x509SubjectIdentityPrefix); ok || identityValue != "" {')),
+ dict(name='cutprefix-separator-unchecked', file=V, expect='flagged(verifier/missing-separator)', find=_VFN,
+      replace=_sub(_CUTPREFIX, '\t\tif !strings.Contains(identity, ":") {\n\t\t\treturn fmt.Errorf("trust policy statement %q has trusted identity %q missing separator", policyName, identity)\n\t\t}\n', '')),
+ dict(name='cutprefix-without-colon', file=V, expect='flagged(verifier/)', find=_VFN,
+      replace=_sub(_CUTPREFIX, 'const x509SubjectIdentityPrefix = trustpolicyInternal.X509Subject + ":"', 'const x509SubjectIdentityPrefix = trustpolicyInternal.X509Subject')),
+ dict(name='cutprefix-empty-value-skipped', file=V, expect='flagged(verifier/empty-value)', find=_VFN,
+      replace=_sub(_CUTPREFIX, '\t\t\tif identityValue == "" {\n\t\t\t\treturn fmt.Errorf("trust policy statement %q has trusted identity %q without an identity value", policyName, identity)\n\t\t\t}', '\t\t\tif identityValue == "" {\n\t\t\t\tcontinue\n\t\t\t}')),
+ dict(name='cutprefix-hasprefix-fold', file=V, expect='flagged(verifier/)', find=_VFN,
+      replace=_sub(_CUTPREFIX, 'strings.CutPrefix(identity, x509SubjectIdentityPrefix)', 'strings.CutPrefix(strings.ToLower(identity), x509SubjectIdentityPrefix)')),
+ dict(name='presized-with-length', file=V, expect='flagged(verifier/first-arg-identity)', find=_VFN,
+      replace=_sub(_CUTPREFIX, 'make([]map[string]string, 0, len(trustedIdentities))', 'make([]map[string]string, len(trustedIdentities))')),
+ # -- continue guard, matched flag
+ dict(name='benign-continue-guard-matched-flag', file=V, expect='silent', find=_VFN, replace=_FLAG),
+ dict(name='flag-initially-true', file=V, expect='flagged(verifier/success-exits)', find=_VFN,
+      replace=_sub(_FLAG, '\tmatched := false\n', '\tmatched := len(trustedX509Identities) > 1\n')),
+ dict(name='flag-continue-on-parse-error', file=V, expect='flagged(verifier/identity-parse-error)', find=_VFN,
+      replace=_sub(_FLAG, '\t\tif err != nil {\n\t\t\treturn err\n\t\t}\n\t\ttrustedX509Identities = append', '\t\tif err != nil {\n\t\t\tcontinue\n\t\t}\n\t\ttrustedX509Identities = append')),
+ # -- parser: alias on a local copy, guard clause, array literal
+ dict(name='benign-parser-local-alias-array-literal', file=P, expect='silent', find=_PARSER, replace=_PARSER2),
+ dict(name='local-alias-wrong-guard', file=P, expect='flagged(parser/alias-S-ST)', find=_PARSER,
+      replace=_sub(_PARSER2, '\t\t\tif attrType == "S" {', '\t\t\tif attrType == "s" {')),
+ dict(name='local-alias-dropped', file=P, expect='flagged(parser/alias-S-ST)', find=_PARSER,
+      replace=_sub(_PARSER2, '\t\t\tif attrType == "S" {\n\t\t\t\tattrType = "ST"\n\t\t\t}\n', '')),
+ dict(name='local-alias-inverted', file=P, expect='flagged(parser/alias-S-ST)', find=_PARSER,
+      replace=_sub(_PARSER2, '\t\t\tif attrType == "S" {', '\t\t\tif attrType != "S" {')),
+ dict(name='local-alias-trimmed-type', file=P, expect='flagged(parser/stores-type-value)', find=_PARSER,
+      replace=_sub(_PARSER2, '\t\t\tattrType := attribute.Type\n', '\t\t\tattrType := strings.TrimSpace(attribute.Type)\n')),
+ dict(name='local-alias-folded-type', file=P, expect='flagged(parser/stores-type-value)', find=_PARSER,
+      replace=_sub(_PARSER2, '\t\t\tattrType := attribute.Type\n', '\t\t\tattrType := strings.ToUpper(attribute.Type)\n')),
+ dict(name='local-alias-other-attribute-value', file=P, expect='flagged(parser/stores-type-value)', find=_PARSER,
+      replace=_sub(_PARSER2, '\t\t\tattrKeyValue[attrType] = attribute.Value\n', '\t\t\tattrKeyValue[attrType] = rdn.Attributes[0].Type\n')),
+ dict(name='guard-clause-duplicate-dropped', file=P, expect='flagged(parser/duplicate)', find=_PARSER,
+      replace=_sub(_PARSER2, '\t\t\tif attrKeyValue[attrType] != "" {', '\t\t\tif attrKeyValue[attrType] != "" && false {')),
+ dict(name='array-literal-O-dropped', file=P, expect='flagged(parser/mandatory)', find=_PARSER,
+      replace=_sub(_PARSER2, '[...]string{"C", "ST", "O"}', '[...]string{"C", "ST"}')),
+ dict(name='array-literal-fixed-key', file=P, expect='flagged(parser/mandatory)', find=_PARSER,
+      replace=_sub(_PARSER2, '\t\tif attrKeyValue[field] == "" {', '\t\tif attrKeyValue["C"] == "" {')),
+ dict(name='array-literal-loop-breaks', file=P, expect='flagged(parser/mandatory)', find=_PARSER,
+      replace=_sub(_PARSER2, '\t\tif attrKeyValue[field] == "" {', '\t\tif field == "O" {\n\t\t\tbreak\n\t\t}\n\t\tif attrKeyValue[field] == "" {')),
+]
